@@ -53,6 +53,9 @@ CLAIMS = {
  "C07": ("exploration", "8.C07", "deterministic simulation with a byzantine peer: mutated/generated bytes at every protocol position into live stacks (pipe MAC, simulated UDP air), thread liveness judged by the scheduler",
          "Five harnesses: (llcp) a real link controller with live sockets, real SNEP/handover servers and application threads against a byzantine peer on the pipe MAC (mutated general bytes, grammar-aware LLCP mutants, deep AGF nesting, SNL floods, sequence abuse) plus every frame of length <= 2 exhaustively, one conversation each; (dep) a real stack in connect(llcp) over the real udp driver against a byzantine node sending mutated ATR/PSL/DEP/DSL/RLS at protocol position k in either role; (app) malformed SNEP/handover fragments against the real servers and clients; (tt3) generated commands into Type3TagEmulation.process_command. Oracle: only documented exception types, no thread dies, no thread stays blocked, connect() returns.",
          "host link errors are not injected here (C13); secure LLCP (OpenSSL) is not available in the sandbox"),
+ "C20": ("fault_enumeration", "8.C20", "deterministic simulation: FeliCa Lite/Lite-S/NTAG21x silicon models with independent MAC computation; tamper-in-transit fault at every bit of MAC protected responses",
+         "authenticate(pw) must be True exactly when the key derived from pw (modulo DES parity bits) equals the key held by the model; protect(pw) + field reset + authenticate(pw) / authenticate(other); after authentication every single-bit flip of the data and MAC bytes of read_with_mac responses (1-3 blocks) and seeded multi-bit substitutions must be detected; PACK answers of NTAG21x flipped bit by bit.",
+         "Lite models compute session key, MAC and MAC_A with an own DES (FIPS vectors checked at import); passwords are bytes; MAC_A protected reads and Mifare Ultralight C 3DES authentication are not modelled"),
 }
 NA = {
  "C11": "pure encode/decode function of its argument: no schedule, clock, fault, peer or history enters the statement; deterministic simulation adds nothing over input generation (DESIGN.md section 9)",
